@@ -8,18 +8,37 @@ ROOT = os.path.dirname(os.path.dirname(os.path.abspath(__file__)))
 BASELINE = ('cd /repo && /venv/bin/python -m pytest -ra -q -p no:cacheprovider --timeout=900 '
             '--continue-on-collection-errors')
 
+SCHED = 'schedule-explorer'
+SCHED_TECH = ('stateless deviation-bounded exhaustive schedule exploration (prefix-replay DFS) of the real Process on a '
+              'hand-stepped deterministic event loop')
+SCHED_NOTE = ('Trusts the hand-written VLoop (FIFO ready queue like every asyncio loop), that control calls arrive between '
+              'two loop callbacks, and the generated program family; bounds (K, J, program length) are those reported in '
+              'the evidence file. Exhaustive within those bounds, no sampling.')
+
+
+def sched(what: str, ref: str) -> tuple:
+    return (SCHED, SCHED_TECH,
+            'Every placement of <=K control requests and <=J early wake-ups between any two event-loop callbacks of every '
+            'generated program is executed on the implementation itself and judged by: ' + what, SCHED_NOTE, ref)
+
+
 # id -> (engine, technique, level text, level note, design ref)
 CHECKS = {
-    'C04': ('schedule-explorer',
-            'stateless deviation-bounded exhaustive schedule exploration of the real Process on a hand-stepped event loop',
-            'Every placement of <=K control requests (kill/pause/play/resume/future-cancel, also from listener callbacks '
-            'and step bodies) and <=J early wake-ups between any two event-loop callbacks of every generated program is '
-            'executed on the implementation; the kill oracle (never raises, never lost, result True iff KILLED, text '
-            'recorded, unkillability probe from every live end configuration) is evaluated on each execution. Exhaustive '
-            'within the stated bounds, no sampling.',
-            'Trusts the hand-written VLoop (FIFO ready queue like every asyncio loop) and that control calls arrive '
-            'between two loop callbacks; program family and bounds are those reported in the evidence file.',
-            'DESIGN.md 3 C04'),
+    'C01': sched('the lifecycle-graph oracle (first state CREATED, every ENTERED pair an edge of the documented graph, the '
+                 'terminal state and its outcome unchanged at every later sample including a post-mortem barrage of all '
+                 'control calls, step(), execute() and late callbacks).', 'DESIGN.md 3 C01'),
+    'C02': sched('the outcome-agreement oracle (future/result()/successful()/killed_msg()/exception() agree, one terminal '
+                 'listener notification, cleanups once, closed, step_until_terminated() returned; future pending while '
+                 'live, sampled after every choice).', 'DESIGN.md 3 C02'),
+    'C04': sched('the kill oracle (never raises, never lost, no step starts after it, result True iff KILLED, text '
+                 'recorded, future().cancel() equivalent, unkillability probe from every live end configuration).',
+                 'DESIGN.md 3 C04'),
+    'C05': sched('the pause/play transparency oracle (no raise, nothing runs while paused, play un-pauses and withdraws a '
+                 'pending pause, trace/outputs/result equal to the uninterrupted run, status restored).',
+                 'DESIGN.md 3 C05'),
+    'C06': sched('the wake-up oracle (an accepted resume / completed awaitables always lead to the continuation running '
+                 'exactly once with the first accepted value, never WAITING at quiescence after play).',
+                 'DESIGN.md 3 C06'),
 }
 
 ALL = [f'C{i:02d}' for i in range(1, 21)]
